@@ -1115,9 +1115,9 @@ class Flattener(object):
                     i += 1
             if isinstance(s, ast.Assign) and len(s.targets) == 1 and isinstance(s.targets[0], ast.Tuple) and isinstance(s.value, ast.Tuple) and \
                     len(s.targets[0].elts) == len(s.value.elts) and all(isinstance(t_, ast.Name) for t_ in s.targets[0].elts) and \
-                    all(isinstance(v_, (ast.Name, ast.Constant)) for v_ in s.value.elts):
+                    all(_pure(v_) for v_ in s.value.elts):
                 tn = {t_.id for t_ in s.targets[0].elts}
-                vn = {v_.id for v_ in s.value.elts if isinstance(v_, ast.Name)}
+                vn = {n_.id for v_ in s.value.elts for n_ in ast.walk(v_) if isinstance(n_, ast.Name)}
                 if not (tn & vn) and len(tn) == len(s.targets[0].elts):
                     for t_, v_ in zip(s.targets[0].elts, s.value.elts):
                         out.append(ast.copy_location(ast.Assign(targets=[t_], value=v_), s))
